@@ -5,6 +5,20 @@ import os
 VERIF = os.path.dirname(os.path.dirname(os.path.abspath(__file__)))
 
 CLAIMED = {
+    'C01': dict(
+        text='Coq theorem grid_to_nd: for any number of dimensions, any sizes >= 1, ANY storage permutation on either side, any element type '
+             'and contents (no side with more dimensions than points), the model of reshape_to_n_dims returns file-order labels and an array '
+             'in which the element at the multi-index carried by row r / column c is main[r][c]; every coordinate vector is carried by exactly '
+             'one row. Proved through: cyclic change counts of mixed-radix digits, stable argsort is a sorted permutation, uniqueness of '
+             'strictly sorted lists, strides depend only on non-unit dimensions, transpose/reshape index algebra. View theorems: sorted view = '
+             'file-order view permuted by one permutation (labels, sizes, array), toggle involutive, reads after any toggle/read history. '
+             'Model validated against reshape_to_n_dims (h5py/numpy/dask ancillaries, lazy/eager, 6 dtypes) and USIDataset read/toggle histories in coqc.',
+        design='5/C01',
+        note='Trusted: Coq kernel; numpy/dask reshape+transpose semantics (Base/NdArray.v); numpy argsort stable for <= 16 keys; labels distinct '
+             '(abstracted to ids). Open known finding: more dimensions than points on a side (orientation heuristic) - outside the theorem\'s '
+             'hypothesis, reported as KNOWN-FINDING. Exact axis sizes are validated by the correspondence run; the theorem gives rank, '
+             'in-boundness of every grid coordinate and the element map.',
+        technique='Coq proof (induction, permutation/sortedness lemmas, mixed-radix arithmetic) + in-Coq correspondence evaluation'),
     'C03': dict(
         text='Coq theorem compute_spec (any mask, any batch limit >= 1, any map function): compute() terminates, the call log equals the pending '
              'list (each pending position exactly once, never a completed one), batches are non-empty, within the limit and concatenate to the '
